@@ -47,11 +47,22 @@ Theorems (→ meaning for the property)
   5  request_then_provide, peek_then_notify, request_without_publish
   6  client_roundtrip_provide/_classic/_caps, client_refuses_oversize, client_roundtrip_partial [partial]
      zId_law                          the zlib law is satisfiable (tagged identity, used by the driver)
+  2' broadcast_survives_failed_client a client whose connection works is served whatever the others are (dead mid-broadcast, closed, handshake)
+  7  fitsServer / fitsClient (defs)   decidable predicates on (zlib, text): record incl. NUL ≤ record limit ∧ compressed message ≤ message limit
+     client_to_app_exact_iff          SendClientCutTextUTF8(t): delivered exactly iff fitsServer, sender closed without callback otherwise
+     client_roundtrip_iff             provide of a publish: GotXCutTextUTF8(t ++ [0]) iff fitsClient, client gives up otherwise
+     client_to_app_record_oversize    compressed message fits, record does not → closed
+     extended_limit_counts_the_nul    a text of exactly 1 MiB fails both predicates (record limit counts the NUL), classic still carries it
+     zero_size_record_closes          size-0 record refused in both stream styles
+     vanished_sender_is_closed        a sender that closes right after writing: processed, nothing written to it, closed
 
-Partial (`_partial`): the two compositions that go through a compressor are proved for every text
-whose *compressed* message fits the 1 MiB message limit; the unrestricted statement is false of the
-code (incompressible text within a few hundred bytes of 1 MiB) — see the comments at the theorems
-and `client_to_app_compressed_oversize`.  Not modelled: write/allocation failures, threads, other
+Partial (`_partial`): the unrestricted statement "every text of 0..1 MiB makes the extended round
+trip" is false of the code in two distinct ways — (i) the record limit counts the NUL, so a text of
+exactly 2^20 bytes is refused (`extended_limit_counts_the_nul`), (ii) the compressed message is
+bounded by the same 1 MiB, so an incompressible text within a few hundred bytes of the limit is
+refused.  The exact set is `fitsServer` / `fitsClient`, and `client_to_app_exact_iff` /
+`client_roundtrip_iff` prove the full equivalence (delivered exactly ⇔ predicate; closed without
+callback otherwise).  Not modelled: write/allocation failures, threads, other
 message types than ClientCutText/SetEncodings (server) and ServerCutText/Bell (client).
 -/
 namespace VncModel.Props.C18
@@ -231,43 +242,68 @@ def expectUtf8 (cl : Cl) (t : Bytes) (fb : Option Bytes) : List SMsg :=
     | some f => [.classic f]
     | none => []
 
-/-- **`rfbSendServerCutTextUTF8` for every population** of extended, classic, not-yet-NORMAL and
-closed clients: each fully connected (open, state NORMAL) extended client gets exactly one provide
-whose record is `t ++ [0]` with declared size `|t| + 1` (if its capabilities allow an unsolicited
-provide of `|t|` bytes), else one notify (if it accepts notifies), else nothing — never the
-fallback; each fully connected classic client gets exactly the Latin-1 fallback (nothing if there is
-none); closed clients and clients still in the handshake get nothing and keep their record; and
-every fully connected extended client's cache then holds `t ++ [0]` for a later request. -/
+/-- **`rfbSendServerCutTextUTF8` for every population** of extended, classic, not-yet-NORMAL,
+closed and failing clients: each fully connected (open, state NORMAL) extended client gets exactly
+one provide whose record is `t ++ [0]` with declared size `|t| + 1` (if its capabilities allow an
+unsolicited provide of `|t|` bytes), else one notify (if it accepts notifies), else nothing — never
+the fallback; each fully connected classic client gets exactly the Latin-1 fallback (nothing if
+there is none); closed clients and clients still in the handshake get nothing and keep their
+record; a client whose peer is gone gets nothing and is closed if something was due to it — and
+that does not change what any other client gets; every fully connected extended client's cache
+then holds `t ++ [0]` for a later request. -/
 theorem app_to_clients_exact (s : Sys) (t : Bytes) (fb : Option Bytes) :
-    (s.pub8 t fb).2 = s.cls.map (fun p => (p.1, expectUtf8 p.2 t fb)) ∧
+    (s.pub8 t fb).2 = s.cls.map (fun p =>
+      (p.1, if p.2.peerGone = true then [] else expectUtf8 p.2 t fb)) ∧
     (s.pub8 t fb).1.cls = s.cls.map (fun p =>
-      (p.1, if p.2.isOpen = true ∧ p.2.normal = true ∧ p.2.ext = true
-            then { p.2 with data := some (t ++ [0]) } else p.2)) := by
+      (p.1,
+        let c := if p.2.isOpen = true ∧ p.2.normal = true ∧ p.2.ext = true
+                 then { p.2 with data := some (t ++ [0]) } else p.2
+        if p.2.peerGone = true ∧ expectUtf8 p.2 t fb ≠ [] then closeCl c else c)) := by
   constructor
   · simp only [Sys.pub8]
     apply List.map_congr_left
     intro p _
-    simp only [sendUtf8One, expectUtf8]
-    cases p.2.isOpen <;> cases p.2.normal <;> cases p.2.ext <;> cases fb <;>
-      cases hP : p.2.userCap.testBit bProvide <;> cases hN : p.2.userCap.testBit bNotify <;>
-      by_cases hle : t.length ≤ p.2.maxUnsol <;> simp [hle]
+    rcases p with ⟨pid, ⟨o, n, g, v, e, u, m, d⟩⟩
+    simp only [sendUtf8One, expectUtf8, writeOutcome, closeCl]
+    cases g <;> cases o <;> cases n <;> cases e <;> cases fb <;>
+      cases hP : u.testBit bProvide <;> cases hN : u.testBit bNotify <;>
+      by_cases hle : t.length ≤ m <;> simp [hle]
   · simp only [Sys.pub8]
     apply List.map_congr_left
     intro p _
-    simp only [sendUtf8One]
-    cases p.2.isOpen <;> cases p.2.normal <;> cases p.2.ext <;> cases fb <;>
-      cases hP : p.2.userCap.testBit bProvide <;> cases hN : p.2.userCap.testBit bNotify <;>
-      by_cases hle : t.length ≤ p.2.maxUnsol <;> simp [hle]
+    rcases p with ⟨pid, ⟨o, n, g, v, e, u, m, d⟩⟩
+    simp only [sendUtf8One, expectUtf8, writeOutcome, closeCl]
+    cases g <;> cases o <;> cases n <;> cases e <;> cases fb <;>
+      cases hP : u.testBit bProvide <;> cases hN : u.testBit bNotify <;>
+      by_cases hle : t.length ≤ m <;> simp [hle]
 
 /-- **`rfbSendServerCutText` (classic) for every population**: every fully connected client —
-extended or not — gets exactly `t`; closed clients and clients still in the handshake nothing. -/
+extended or not — gets exactly `t`; closed clients and clients still in the handshake nothing; a
+client whose peer is gone gets nothing and is closed. -/
 theorem app_to_clients_exact_classic (s : Sys) (t : Bytes) :
-    s.pub t = s.cls.map (fun p =>
-      (p.1, if p.2.isOpen = true ∧ p.2.normal = true then [SMsg.classic t] else [])) := by
-  simp only [Sys.pub, sendClassicOne]
-  apply List.map_congr_left
-  intro p _
-  cases p.2.isOpen <;> cases p.2.normal <;> simp
+    (s.pub t).2 = s.cls.map (fun p =>
+      (p.1, if p.2.isOpen = true ∧ p.2.normal = true ∧ p.2.peerGone = false then [SMsg.classic t] else [])) ∧
+    (s.pub t).1.cls = s.cls.map (fun p =>
+      (p.1, if p.2.isOpen = true ∧ p.2.normal = true ∧ p.2.peerGone = true then closeCl p.2 else p.2)) := by
+  constructor <;>
+  · simp only [Sys.pub, sendClassicOne, writeOutcome]
+    apply List.map_congr_left
+    intro p _
+    rcases p with ⟨pid, ⟨o, n, g, v, e, u, m, d⟩⟩
+    cases o <;> cases n <;> cases g <;> simp [closeCl]
+
+/-- **one client's failure does not stop the broadcast**: whatever the other entries of the
+population are — closed, failing mid-broadcast, still in the handshake — a client whose connection
+works is served exactly as if it were alone (the `continue` arms of both publish loops). -/
+theorem broadcast_survives_failed_client (s : Sys) (t : Bytes) (fb : Option Bytes) (id : Nat) (cl : Cl)
+    (hmem : (id, cl) ∈ s.cls) (hok : cl.peerGone = false) :
+    (id, expectUtf8 cl t fb) ∈ (s.pub8 t fb).2 ∧
+    (id, if cl.isOpen = true ∧ cl.normal = true then [SMsg.classic t] else []) ∈ (s.pub t).2 := by
+  constructor
+  · rw [(app_to_clients_exact s t fb).1]
+    exact List.mem_map.mpr ⟨(id, cl), hmem, by simp [hok]⟩
+  · rw [(app_to_clients_exact_classic s t).1]
+    exact List.mem_map.mpr ⟨(id, cl), hmem, by simp [hok]⟩
 
 /-- **a client still in the handshake receives nothing** from either publish function, whatever
 its other fields say, and its record (in particular its cache) is left exactly as it was: no
@@ -290,10 +326,12 @@ theorem app_to_clients_wire (Z : Zlib) (t : Bytes) :
   · simp [SMsg.wire, record, msgServerCutText, srvProvideFlags, bProvide, bText]
 
 /-- non-vacuity: a mixed population (extended with small unsolicited limit, extended default,
-classic, closed, still in the handshake) -/
+classic, closed, still in the handshake, peer gone, classic after the failing one) -/
 example : (Sys.pub8 ⟨⟨true⟩, [(0, { ext := true, maxUnsol := 2 }), (1, { ext := true }), (2, {}),
-      (3, { isOpen := false }), (4, { normal := false })]⟩ [65, 66, 67] (some [63])).2 =
-    [(0, [.notify]), (1, [.provide (record [65, 66, 67, 0])]), (2, [.classic [63]]), (3, []), (4, [])] := by
+      (3, { isOpen := false }), (4, { normal := false }), (5, { peerGone := true }), (6, {})]⟩
+      [65, 66, 67] (some [63])).2 =
+    [(0, [.notify]), (1, [.provide (record [65, 66, 67, 0])]), (2, [.classic [63]]), (3, []), (4, []),
+     (5, []), (6, [.classic [63]])] := by
   decide
 
 /-! ## 3. capability negotiation -/
@@ -806,6 +844,222 @@ theorem client_roundtrip_partial (Z : Zlib) (hZ : ZLaw Z) (env : Env) (cl : Cl) 
     have h := client_roundtrip_classic Z env c f [] hl1 hl
     simpa [cliFeed_nil] using h
 
+
+/-! ## 7. the exact set of texts that make the extended round trip (round 2) -/
+
+/-- **the texts the server accepts from `SendClientCutTextUTF8`** — a decidable predicate on
+(zlib, text): the record (text plus NUL) is within the record limit AND the sync-flushed compressed
+message is within the message limit.  For a text of exactly 1 MiB the first conjunct fails: the
+1 MiB bound of both receive paths counts the terminating NUL, so the largest extended text is
+`2^20 − 1` bytes (the classic message carries `2^20`). -/
+def fitsServer (Z : Zlib) (t : Bytes) : Bool :=
+  decide (t.length + 1 ≤ srvRecLimit) &&
+  decide (4 + (Z.compressSync (record (t ++ [0]))).length ≤ srvMsgLimit)
+
+/-- the texts LibVNCClient accepts from `rfbSendServerCutTextUTF8` -/
+def fitsClient (Z : Zlib) (t : Bytes) : Bool :=
+  decide (t.length + 1 ≤ cliRecLimit) &&
+  decide (4 + (Z.compress (record (t ++ [0]))).length ≤ cliMsgLimit)
+
+/-- the record limit seen from the sender: compressed message fits, record does not → closed -/
+theorem client_to_app_record_oversize (Z : Zlib) (hZ : ZLaw Z) (env : Env) (cfg : Cfg) (cl : Cl) (c : LC)
+    (t rest : Bytes) (ho : cl.isOpen = true) (he : cl.ext = true) (hc : c.caps ≠ 0)
+    (hint : t.length < 2147483647) (hbig : t.length + 1 > srvRecLimit)
+    (hm : 4 + (Z.compressSync (record (t ++ [0]))).length ≤ srvMsgLimit) :
+    ∃ w, cliSendUtf8 Z c t = some w ∧ feed Z env cfg cl (w ++ rest) = ⟨closeCl cl, [], [], false⟩ := by
+  refine ⟨cliNotifyMsg ++ cliProvideMsg (Z.compressSync (record (t ++ [0]))), by simp [cliSendUtf8, hc], ?_⟩
+  rw [List.append_assoc, client_notify_ignored Z env cfg cl _ ho he]
+  have hpf : cliProvideMsg (Z.compressSync (record (t ++ [0]))) ++ rest =
+      (6 : UInt8) :: 0 :: 0 :: 0 :: (be32 (neg32 (be32 cliProvideFlags ++ Z.compressSync (record (t ++ [0]))).length) ++
+        ((be32 cliProvideFlags ++ Z.compressSync (record (t ++ [0]))) ++ rest)) := by
+    simp [cliProvideMsg, msgClientCutText, be32_length]
+  have hbl : (be32 cliProvideFlags ++ Z.compressSync (record (t ++ [0]))).length =
+      4 + (Z.compressSync (record (t ++ [0]))).length := by simp [be32_length]
+  have hh : handleExt Z env cfg cl (be32 cliProvideFlags ++ Z.compressSync (record (t ++ [0]))) =
+      ⟨closeCl cl, [], []⟩ :=
+    oversize_closes_record Z env cfg cl cliProvideFlags (t.length + 1) _ (t ++ [0]) .more (by decide)
+      (by decide) (by decide) (by decide) (by decide) (by decide)
+      (by rw [hZ.inflate_sync (record (t ++ [0]))]
+          simp [record]) (by omega) hbig
+  have hstep := stepMsg_ext Z env cfg cl (be32 cliProvideFlags ++ Z.compressSync (record (t ++ [0]))) rest he
+    (by omega) (by omega)
+  rw [hh] at hstep
+  simp only [closeCl, Bool.false_eq_true, if_false] at hstep
+  rw [hpf]
+  exact feed_closedStep Z env cfg cl _ _ _ _ _ ho hstep
+
+/-- **client → application, the full characterisation**: for every zlib satisfying the law and
+every text (length below `INT_MAX`, compressed message representable as a sign-encoded length),
+what `SendClientCutTextUTF8(t)` writes is
+* delivered — `setXCutTextUTF8` gets exactly `t ++ [0]`, nothing else happens — if `fitsServer Z t`,
+* answered by closing the sender with no callback at all otherwise;
+in particular (fully connected extended client, callback installed, not view-only) the text arrives
+intact **iff** `fitsServer Z t`. -/
+theorem client_to_app_exact_iff (Z : Zlib) (hZ : ZLaw Z) (env : Env) (cfg : Cfg) (cl : Cl) (c : LC)
+    (t : Bytes) (ho : cl.isOpen = true) (he : cl.ext = true) (hc : c.caps ≠ 0)
+    (hint : t.length < 2147483647)
+    (h31 : 4 + (Z.compressSync (record (t ++ [0]))).length ≤ 2147483648) :
+    ∃ w, cliSendUtf8 Z c t = some w ∧
+      feed Z env cfg cl w =
+        (if fitsServer Z t = true then
+          ⟨cl, if !cl.viewOnly && cfg.cb8 then [Cb.utf8 (t ++ [0])] else [], [], false⟩
+         else ⟨closeCl cl, [], [], false⟩) ∧
+      (cl.viewOnly = false → cfg.cb8 = true →
+        (((feed Z env cfg cl w).cbs = [Cb.utf8 (t ++ [0])] ∧ (feed Z env cfg cl w).cl = cl) ↔
+          fitsServer Z t = true)) := by
+  have key : ∃ w, cliSendUtf8 Z c t = some w ∧
+      feed Z env cfg cl w =
+        (if fitsServer Z t = true then
+          ⟨cl, if !cl.viewOnly && cfg.cb8 then [Cb.utf8 (t ++ [0])] else [], [], false⟩
+         else ⟨closeCl cl, [], [], false⟩) := by
+    by_cases hrec : t.length + 1 ≤ srvRecLimit
+    · by_cases hm : 4 + (Z.compressSync (record (t ++ [0]))).length ≤ srvMsgLimit
+      · obtain ⟨w, h1, h2⟩ := client_to_app_exact_partial Z hZ env cfg cl c t [] ho he hc hrec hm
+        refine ⟨w, h1, ?_⟩
+        rw [List.append_nil] at h2
+        simp [fitsServer, hrec, hm, h2, feed_nil]
+      · obtain ⟨w, h1, h2⟩ := client_to_app_compressed_oversize Z env cfg cl c t [] ho he hc (by omega) h31
+        refine ⟨w, h1, ?_⟩
+        rw [List.append_nil] at h2
+        simp [fitsServer, hm, h2]
+    · by_cases hm : 4 + (Z.compressSync (record (t ++ [0]))).length ≤ srvMsgLimit
+      · obtain ⟨w, h1, h2⟩ := client_to_app_record_oversize Z hZ env cfg cl c t [] ho he hc hint (by omega) hm
+        refine ⟨w, h1, ?_⟩
+        rw [List.append_nil] at h2
+        simp [fitsServer, hrec, h2]
+      · obtain ⟨w, h1, h2⟩ := client_to_app_compressed_oversize Z env cfg cl c t [] ho he hc (by omega) h31
+        refine ⟨w, h1, ?_⟩
+        rw [List.append_nil] at h2
+        simp [fitsServer, hrec, h2]
+  obtain ⟨w, h1, h2⟩ := key
+  refine ⟨w, h1, h2, ?_⟩
+  intro hv hcb
+  rw [h2]
+  by_cases hf : fitsServer Z t = true
+  · simp [hf, hv, hcb]
+  · simp only [hf, Bool.false_eq_true, if_false]
+    constructor
+    · intro ⟨_, hcl⟩
+      have := congrArg Cl.isOpen hcl
+      simp [closeCl, ho] at this
+    · intro h; cases h
+
+/-- **server → LibVNCClient, the full characterisation**: the provide message of a publish of `t`
+is delivered to `GotXCutTextUTF8` as exactly `t ++ [0]` if `fitsClient Z t`, and makes the client
+give up its connection without any callback otherwise — so it arrives intact **iff** `fitsClient Z t`. -/
+theorem client_roundtrip_iff (Z : Zlib) (hZ : ZLaw Z) (env : Env) (c : LC) (t : Bytes)
+    (hu : c.hasU8 = true) (hint : t.length < 2147483647)
+    (h31 : 4 + (Z.compress (record (t ++ [0]))).length ≤ 2147483648) :
+    cliFeed Z env c (SMsg.wire Z (.provide (record (t ++ [0])))) =
+      (if fitsClient Z t = true then ⟨c, [CCb.utf8 (t ++ [0])], false, false⟩ else ⟨c, [], true, false⟩) ∧
+    (((cliFeed Z env c (SMsg.wire Z (.provide (record (t ++ [0]))))).cbs = [CCb.utf8 (t ++ [0])] ∧
+      (cliFeed Z env c (SMsg.wire Z (.provide (record (t ++ [0]))))).dropped = false) ↔
+        fitsClient Z t = true) := by
+  have hw : SMsg.wire Z (.provide (record (t ++ [0]))) = (3 : UInt8) :: 0 :: 0 :: 0 ::
+      (be32 (neg32 (4 + (Z.compress (record (t ++ [0]))).length)) ++
+        (be32 srvProvideFlags ++ Z.compress (record (t ++ [0])))) := by
+    simp [SMsg.wire, msgServerCutText]
+  have key : cliFeed Z env c (SMsg.wire Z (.provide (record (t ++ [0])))) =
+      (if fitsClient Z t = true then ⟨c, [CCb.utf8 (t ++ [0])], false, false⟩ else ⟨c, [], true, false⟩) := by
+    by_cases hm : 4 + (Z.compress (record (t ++ [0]))).length ≤ cliMsgLimit
+    · by_cases hrec : t.length + 1 ≤ cliRecLimit
+      · have h := client_roundtrip_provide Z hZ env c (t ++ [0]) [] hu (by simp) (by simpa using hrec) hm
+        rw [List.append_nil] at h
+        simp [fitsClient, hrec, hm, h, cliFeed_nil]
+      · -- message accepted, record over the limit
+        have hlim : cliMsgLimit = 1048576 := rfl
+        have hge := neg32_ge (4 + (Z.compress (record (t ++ [0]))).length) (by omega) (by omega)
+        have hnn := neg32_neg32 (4 + (Z.compress (record (t ++ [0]))).length) (by omega)
+        have hbl : (be32 srvProvideFlags ++ Z.compress (record (t ++ [0]))).length =
+            4 + (Z.compress (record (t ++ [0]))).length := by simp [be32_length]
+        have hext : cliExt Z env c (be32 srvProvideFlags ++ Z.compress (record (t ++ [0]))) = none := by
+          have hrd : rd32 (be32 srvProvideFlags ++ Z.compress (record (t ++ [0]))) = srvProvideFlags :=
+            rd32_be32 _ (by decide) _
+          have hdrop : (be32 srvProvideFlags ++ Z.compress (record (t ++ [0]))).drop 4 =
+              Z.compress (record (t ++ [0])) := List.drop_left' (be32_length _)
+          have hrecd := readRecord_oversize env cliRecLimit (t.length + 1)
+            (ZState.init Z (Z.compress (record (t ++ [0])))) (t ++ [0])
+            (by simp [ZState.init, hZ.inflate_compress, record]) (by omega) (by omega)
+          have h1 : srvProvideFlags.testBit bText = true := by decide
+          have h2 : srvProvideFlags.testBit bProvide = true := by decide
+          have h3 : srvProvideFlags.testBit bCaps = false := by decide
+          unfold cliExt
+          simp only [hbl, hrd, h1, h2, h3, hdrop, hrecd]
+          simp
+        rw [hw]
+        have hstep : cliStepMsg Z env c ((3 : UInt8) :: 0 :: 0 :: 0 ::
+            (be32 (neg32 (4 + (Z.compress (record (t ++ [0]))).length)) ++
+              (be32 srvProvideFlags ++ Z.compress (record (t ++ [0]))))) = .drop := by
+          have hform : (be32 srvProvideFlags ++ Z.compress (record (t ++ [0]))) =
+              (be32 srvProvideFlags ++ Z.compress (record (t ++ [0]))) ++ [] := by simp
+          simp only [cliStepMsg]
+          rw [if_pos (by decide), cliStepCut_hdr Z env c 3 0 0 0 _ (neg32_lt _) _]
+          simp only [hge, decide_true, if_true, hnn, Nat.not_lt.mpr hm, if_false, Bool.true_and, hu]
+          rw [← hbl, List.take_length]
+          simp [cliExtStep, hext]
+        rw [cliFeed_drop Z env c _ _ hstep]
+        simp [fitsClient, hrec]
+    · rw [hw, cliFeed_drop Z env c _ _
+        (cliStepMsg_ext_oversize Z env c 0 0 0 _ _ (by omega) h31)]
+      simp [fitsClient, hm]
+  refine ⟨key, ?_⟩
+  rw [key]
+  by_cases hf : fitsClient Z t = true <;> simp [hf]
+
+/-- **a text of exactly 1 MiB does not make the extended trip** (distinct from the compressed-size
+bound: an off-by-one of the record limit, which counts the NUL): `fitsServer` and `fitsClient` are
+false for every zlib, while the classic message of the same text is delivered
+(`client_to_app_exact_classic` with `|t| = srvMsgLimit`).  The largest extended text is `2^20 − 1`. -/
+theorem extended_limit_counts_the_nul (Z : Zlib) (t : Bytes) (h : t.length = srvRecLimit) :
+    fitsServer Z t = false ∧ fitsClient Z t = false ∧ t.length ≤ srvMsgLimit := by
+  have h1 : srvRecLimit = 1048576 := rfl
+  have h2 : cliRecLimit = 1048576 := rfl
+  have h3 : srvMsgLimit = 1048576 := rfl
+  simp [fitsServer, fitsClient]
+  omega
+
+/-- **zero-size record**: a provide whose text record announces 0 bytes (an empty text without the
+mandatory NUL) is refused whatever the stream style — `compress()`-style (the first `inflate`
+already returns `Z_STREAM_END`, which the size read does not accept) or sync-flushed (the second
+call has no output space) — connection closed, no callback.  The protocol requires the NUL, so
+the smallest legal record has size 1 (`client_to_app_exact_provide` with `d = [0]`). -/
+theorem zero_size_record_closes (Z : Zlib) (env : Env) (cfg : Cfg) (cl : Cl) (flags : Nat)
+    (z more : Bytes) (fin : Fin) (hfl : flags < 4294967296)
+    (hcaps : flags.testBit bCaps = false) (hreq : flags.testBit bRequest = false)
+    (hpeek : flags.testBit bPeek = false) (hprov : flags.testBit bProvide = true)
+    (htext : flags.testBit 0 = true) (hz : Z.inflateAll z = ⟨be32 0 ++ more, fin⟩) :
+    handleExt Z env cfg cl (be32 flags ++ z) = ⟨closeCl cl, [], []⟩ := by
+  have hlen : ¬ (be32 flags ++ z).length < extMinLen := by simp [be32_length, extMinLen]
+  have hrd : rd32 (be32 flags ++ z) = flags := rd32_be32 flags hfl z
+  have hdrop : (be32 flags ++ z).drop 4 = z := List.drop_left' (be32_length _)
+  have hrec := readRecord_zero env srvRecLimit (ZState.init Z z) more (by simp [ZState.init, hz])
+  unfold handleExt
+  simp only [hlen, if_false, hrd, hcaps, hreq, hpeek, hprov, if_true, hdrop, range16, Bool.false_eq_true]
+  rw [provLoop]
+  simp [htext, hrec]
+
+/-- **a sender that vanishes**: input from a client that closed its end right after writing is
+processed (callbacks are made for the texts it sent), nothing is written to it, and it ends up
+closed — at the first reply that cannot be written (capability message, requested provide, notify)
+or at the end of its data. -/
+theorem vanished_sender_is_closed (Z : Zlib) (env : Env) (cfg : Cfg) (cl : Cl) (input : Bytes)
+    (ho : cl.isOpen = true) :
+    (feedGone Z env cfg cl input).out = [] ∧
+    ((feedGone Z env cfg cl input).unmodelled = false → (feedGone Z env cfg cl input).cl.isOpen = false) := by
+  fun_induction feedGone Z env cfg cl input with
+  | case1 cl => simp [closeCl]
+  | case2 cl t rest hc => simp [ho] at hc
+  | case3 cl t rest hc cl' cbs out k hs hout => simp [closeCl]
+  | case4 cl t rest hc cl' cbs out k hs hout r ih =>
+    have hopen : cl'.isOpen = true := by
+      -- a `next` step leaves the client open
+      have := stepMsg_next_open Z env cfg cl (t :: rest) cl' cbs out k ho hs
+      exact this
+    exact ⟨rfl, (ih hopen).2⟩
+  | case5 cl t rest hc cl' cbs out hs =>
+    have := stepMsg_closed_closed Z env cfg cl (t :: rest) cl' cbs out ho hs
+    simp [this]
+  | case6 cl t rest hc hs => simp
 
 /-! ## non-vacuity: the theorems instantiated with the tagged-identity zlib -/
 
